@@ -66,7 +66,14 @@ fn main() {
                 match g1 {
                     "c02" => (0..n).for_each(|_| cases.push(g::gen_c02(&mut rng))),
                     "c03" => (0..n).for_each(|i| cases.push(if i % 10 == 9 { g::gen_upgrade(&mut rng) } else { g::gen_body(&mut rng, false, i % 7 == 0) })),
-                    "c09" => (0..n).for_each(|_| cases.push(g::gen_body(&mut rng, true, false))),
+                    "c09" => (0..n).for_each(|i| {
+                        // one body far above every buffer per 250 cases
+                        if i % 250 == 7 { g::HUGE.with(|h| h.set(true)); }
+                        cases.push(g::gen_body(&mut rng, true, false))
+                    }),
+                    "hold" => (0..n).for_each(|_| cases.push(g::gen_hold(&mut rng))),
+                    "respfail" => (0..n).for_each(|_| cases.push(g::gen_respfail(&mut rng))),
+                    "badhold" => (0..n).for_each(|i| cases.push(g::gen_bad_expect_hold(&mut rng, i % 3))),
                     "c12" => (0..n).for_each(|_| cases.push(g::gen_c12(&mut rng))),
                     "c18" => (0..n).for_each(|_| cases.push(g::gen_c18(&mut rng))),
                     "mixed" => (0..n).for_each(|_| cases.push(g::gen_mixed(&mut rng))),
